@@ -2,7 +2,9 @@
    Model: Xml/Parser.v (funnel monad).  Theory: Xml/Funnel.v (relation `agree`, proved once for the combinators),
    Xml/FunnelParser.v (instantiated for every parser function up to `load`).
    Statements are for EVERY table set, name tables, validator function, float oracle and byte string. *)
-From AV Require Import Base.Bytes Base.Outcome Hash.HashModel Spec.SpecOps Xml.Lexer Xml.Parser Xml.Funnel Xml.FunnelParser.
+From AV Require Import Base.Bytes Base.Outcome Hash.HashModel Spec.SpecOps Spec.SpecReal Spec.Versions Xml.Lexer Xml.Parser Xml.Funnel Xml.FunnelParser
+  Xml.StrictValidDef Xml.StrictValid Xml.ParserExamples.
+From AV Require Import Hash.HashRealElement Hash.HashRealAttr Hash.HashRealEnum.
 
 (* [U] strict loading succeeds exactly when lenient loading succeeds without warnings (same tree, same final parser
    state: identifiables, references, version, compatibility mask); lenient warnings (stored newest first) => strict
@@ -20,3 +22,62 @@ Theorem C08_agree :
   (forall site, l = Pan site -> s = Pan site \/ exists w sx, s = Val (Raise w sx)) /\
   (l = Fuel -> s = Fuel \/ exists w sx, s = Val (Raise w sx)).
 Proof. exact load_agree. Qed.
+
+(* [U] C08_accepted_is_valid_partial: a tree that strict loading returns satisfies StrictValid (Xml/StrictValidDef.v, a
+   predicate on the tree and the specification lookups only) for the file's version p_version st:
+     - every child element is findable in its parent's type in the file version (find_sub_element), with the recorded type;
+     - consecutive child elements are not different alternatives of a Choice group;
+     - no repeated child of multiplicity <> Any under a Sequence / Choice container;
+     - a type that is named in the file version has a SHORT-NAME child;
+     - every attribute is known for the type, in version, its value valid; every required attribute is present;
+     - every enum value is listed for its spec and in version; every pattern value is within max_length, accepted by
+       the validator and UTF-8; every text item belongs to a type with character data;
+   for every element below the root (children_ok contains StrictValid of every child, recursively).
+   PARTIAL, exactly: (a) the ROOT element's attributes are validated against the placeholder version Autosar_4_0_1
+   (the file version is read from them), so attrs_valid is stated for v401 there; (b) max_length and entity syntax
+   of plain (CString) values are properties of the bytes before unescaping and are not in StrictValid;
+   (c) StrictValid does not say that an element which must carry a value has exactly one text item — that fails,
+   see C08_value_required_refuted and C08_single_text_run_refuted. *)
+Theorem C08_accepted_is_valid_partial :
+  forall (T : tables) (tab_el tab_at tab_en : nametab) (check_fn : N -> list N -> res bool)
+         (float_parse : list N -> option N) (bs : list N) (t : etree) (st : pstate),
+  load true T tab_el tab_at tab_en check_fn float_parse bs = Val (Ret t st) ->
+  exists v401 name ty attrs content comment,
+    version_of_ident "Autosar_4_0_1" = Some v401 /\ t = ENode name ty attrs content comment /\
+    attrs_valid T check_fn v401 ty attrs /\
+    children_ok T check_fn (p_version st) ty [] [] content /\ shortname_ok T (p_version st) ty content.
+Proof. exact load_strict_valid. Qed.
+
+(* [U] data after the root element is never accepted by strict loading: when it returns, the lexer is at the end *)
+Theorem C08_no_trailing_data :
+  forall (T : tables) (tab_el tab_at tab_en : nametab) (check_fn : N -> list N -> res bool)
+         (float_parse : list N -> option N) (bs : list N) (t : etree) (st : pstate),
+  load true T tab_el tab_at tab_en check_fn float_parse bs = Val (Ret t st) ->
+  l_rest (p_lex st) = [] /\ l_deferred (p_lex st) = None.
+Proof. exact load_strict_consumed. Qed.
+
+(* Holes of strict validation, witnessed on the REAL tables (LOAD = load over Spec/SpecReal.v and the real name
+   tables; Xml/ParserExamples.v).  Each was also replayed on the implementation (strict load_buffer returns Ok). *)
+(* <SHORT-NAME/> : an element that must carry a value has no text item and is never value-checked *)
+Theorem C08_value_required_refuted :
+  exists bs, match LOAD true bs with
+             | Val (Ret t _) => any_node (chars_node_with (Nat.eqb 0)) t = true
+             | _ => False
+             end.
+Proof. exact ParserExamples.C08_value_required_refuted. Qed.
+
+(* <CATEGORY>a<!--c-->b</CATEGORY> : a character-data element with two text items *)
+Theorem C08_single_text_run_refuted :
+  exists bs, match LOAD true bs with
+             | Val (Ret t _) => any_node (chars_node_with (Nat.eqb 2)) t = true
+             | _ => False
+             end.
+Proof. exact ParserExamples.C08_single_text_run_refuted. Qed.
+
+(* "&#x+41;" is accepted as a character reference and becomes "A" *)
+Theorem C08_entity_syntax_refuted :
+  exists bs, match LOAD true bs with
+             | Val (Ret t _) => any_node (has_text (BS "A")) t = true
+             | _ => False
+             end.
+Proof. exact ParserExamples.C08_entity_syntax_refuted. Qed.
